@@ -435,6 +435,9 @@ func (cc *jobcontroller) syncJob(jobInfo *apis.JobInfo, updateStatus state.Updat
 	var jobCondition batch.JobCondition
 	oldStatus := job.Status
 	if !syncTask {
+		// No pod is created or deleted while the PodGroup is not admitted, but the
+		// status written below must still describe the pods that exist.
+		countJobPods(jobInfo, &job.Status)
 		if updateStatus != nil {
 			updateStatus(&job.Status)
 		}
@@ -1034,6 +1037,31 @@ func (cc *jobcontroller) recordPodGroupEvent(job *batch.Job, podGroup *schedulin
 			"PodGroup %s:%s %s, reason: %s", job.Namespace, job.Name,
 			strings.ToLower(string(latestCondition.Type)), latestCondition.Message)
 	}
+}
+
+// countJobPods recomputes the pod counters of status from the job's pods as the
+// controller sees them: a pod being deleted counts as terminating, every other
+// pod by its phase.
+func countJobPods(jobInfo *apis.JobInfo, status *batch.JobStatus) {
+	var pending, running, succeeded, failed, unknown, terminating int32
+	taskStatusCount := make(map[string]batch.TaskState)
+	for _, pods := range jobInfo.Pods {
+		for _, pod := range pods {
+			if pod.DeletionTimestamp != nil {
+				terminating++
+				continue
+			}
+			classifyAndAddUpPodBaseOnPhase(pod, &pending, &running, &succeeded, &failed, &unknown)
+			calcPodStatus(pod, taskStatusCount)
+		}
+	}
+	status.Pending = pending
+	status.Running = running
+	status.Succeeded = succeeded
+	status.Failed = failed
+	status.Unknown = unknown
+	status.Terminating = terminating
+	status.TaskStatusCount = taskStatusCount
 }
 
 func classifyAndAddUpPodBaseOnPhase(pod *v1.Pod, pending, running, succeeded, failed, unknown *int32) {
